@@ -56,6 +56,8 @@ def explore(model, name, walk=None, max_depth=12, max_levels=5000, check_arrays=
         expect_end = (total <= 0) or not (t_k < model.tmax)
         if k >= max_depth:
             stats.histories += 1
+            if observe:
+                observe(hist, state, stats)
             return
         leaves = forkrng.enumerate_paths(lambda rng: model.run(rng, True), prefix, max_clocks=k + 1)
         stats.sim_calls += len(leaves)
